@@ -22,7 +22,7 @@ func init() {
 			"round trip: random subsets of stored nodes -> bits set by the harness at the node's list position -> Decode returns the subset. Non-trivial+distinct = hash of (mask, from, to) with a non-empty expected output, hash of (mask, bm) with a non-empty subset.",
 		Assumptions: []string{"mask >= 1; output kept small for big heights (the property's own restriction)", "bit k of bm for the k-th stored node in pre-order: the list position, not the library's PathToIndex (C03 ties the two together)"},
 		Flavours:    releaseAnd386,
-		Required: []string{"arguments-in-read-only-memory", "range/from-on-path", "range/from-between-paths", "range/to-on-path", "range/to-beyond-last", "range/from>to", "range/full", "range/empty-result", "range/high-half>=2^h",
+		Required: []string{"long-run/calls>=100000-per-function", "arguments-in-read-only-memory", "range/from-on-path", "range/from-between-paths", "range/to-on-path", "range/to-beyond-last", "range/from>to", "range/full", "range/empty-result", "range/high-half>=2^h",
 			"level/absent", "h>=20", "decode/bm-shorter", "decode/bm-longer", "decode/bm-empty", "decode/bits>=bitmapSize", "decode/roundtrip", "decode/all-ones", "decode/bm>=2^31-bits", "decode/height>=16"},
 		Families: func(c *mon.Config) []mon.Family {
 			hs := c.Pick(6, 9)
@@ -38,6 +38,7 @@ func init() {
 				{Name: "decode", Env: 10, N: c.Pick(12000, 1000000), Run: c04Decode},
 				{Name: "decode-huge-bitmap", N: 1, Run: c04DecodeHuge},
 				{Name: "decode-tall", Env: 2, N: c.Pick(6, 60), Run: c04DecodeTall},
+				lrFamily(c04LongRun),
 			}
 		},
 	})
